@@ -361,7 +361,8 @@ def completion_algebra(rec, comps, code, line, column, fuzzy, w, expected_fragme
                         % (nws, name), **w)
         pair = (name, comp)
         if pair in seen:
-            rec.violate('c04:duplicate', 'pair %r occurs twice' % (pair,), **w)
+            rec.violate('c04:duplicate:dict_key_completion' if special else 'c04:duplicate',
+                        'pair %r occurs twice' % (pair,), **w)
         seen.add(pair)
         if not special:
             ident_entries.append((name, frag))
